@@ -753,3 +753,56 @@ Proof.
   destruct Hinv as ((S1 & S2) & _). destruct (clampq_bounds qt) as [T1 T2].
   apply ramp_point_linear; try assumption. lia.
 Qed.
+
+(* ---- sleeping time of whole histories ---- *)
+
+(* the time a call is asked to take: its duration_ms when it does not raise *)
+Definition op_duration (op : mop) : Q :=
+  match raises op with
+  | Some _ => 0
+  | None => match op with MRamp _ d => qval d | MRunFor d _ => qval d | _ => 0 end
+  end.
+
+Lemma set_speed_q_sleeps m q : sleeps (snd (set_speed_q m q)) = [].
+Proof. reflexivity. Qed.
+
+Lemma step_sleep m op : qsum (sleeps (mevents (mstep m op))) == op_duration op.
+Proof.
+  unfold op_duration, raises. destruct op as [v|ov| | | |t d|d v| | | |]; try reflexivity.
+  - cbn [mstep]. unfold clamp_speed. destruct (qof v) as [q|]; reflexivity.
+  - cbn [mstep]. unfold clamp_speed. destruct (qof (dflt_back ov)) as [q|]; reflexivity.
+  - (* ramp *)
+    destruct (qof d) as [qd|] eqn:Hd.
+    + destruct (Qltb qd 0) eqn:E.
+      * cbn [mstep]. unfold py_lt. rewrite Hd. cbn [qof]. change (inject_Z 0) with 0. rewrite E. reflexivity.
+      * destruct (qof t) as [qt|] eqn:Ht.
+        -- apply Qltb_false in E.
+           rewrite (mstep_ramp_ok m t d qt qd Ht Hd E). rewrite ok_with_events, ramp_loop_sleeps.
+           unfold qval. rewrite Hd.
+           change (inject_Z 20) with 20. rewrite Qltb_0_div20. rewrite steps20. cbn [length].
+           destruct (Qltb 0 qd) eqn:G.
+           ++ rewrite qsum_repeat. change (inject_Z (Z.of_nat 20)) with 20. field.
+           ++ apply Qltb_false in G. cbn [qsum]. lra.
+        -- cbn [mstep]. unfold py_lt, clamp_speed. rewrite Hd, Ht. cbn [qof]. change (inject_Z 0) with 0. rewrite E. reflexivity.
+    + cbn [mstep]. unfold py_lt. rewrite Hd. reflexivity.
+  - (* run_for *)
+    destruct (qof d) as [qd|] eqn:Hd.
+    + destruct (Qltb qd 0) eqn:E.
+      * cbn [mstep]. unfold py_lt. rewrite Hd. cbn [qof]. change (inject_Z 0) with 0. rewrite E. reflexivity.
+      * destruct (qof v) as [qv|] eqn:Hv.
+        -- apply Qltb_false in E.
+           destruct (run_for_exact m d v qd qv Hd Hv E) as (_ & Hs & _).
+           rewrite Hs. unfold qval. rewrite Hd. cbn [qsum]. lra.
+        -- cbn [mstep]. unfold py_lt, clamp_speed. rewrite Hd, Hv. cbn [qof]. change (inject_Z 0) with 0. rewrite E. reflexivity.
+    + cbn [mstep]. unfold py_lt. rewrite Hd. reflexivity.
+Qed.
+
+(* every history sleeps exactly the sum of the durations of its ramp()/run_for() calls that do
+   not raise - and whether a call raises depends on its arguments only *)
+Lemma trace_sleep ops : forall m, qsum (sleeps (mtrace ops m)) == qsum (map op_duration ops).
+Proof.
+  induction ops as [|op ops IH]; intro m.
+  - reflexivity.
+  - cbn [mtrace map qsum]. rewrite sleeps_app, qsum_app, step_sleep, IH. reflexivity.
+Qed.
+
